@@ -177,18 +177,22 @@ theorem drop_two_of_getLast {vs : List E} {vj : E} (hl : vs.getLast? = some vj) 
 theorem step_eq_genStep (f : E → E) (tol : K) (herm : Bool) (st : KS K E) (vj : E)
     (hl : st.V.getLast? = some vj) :
     ∃ (c : List K) (w' : E), c.length = st.V.length ∧ f vj = lc c st.V + w' ∧
-      step (fieldArith ip sq ab rp lt) f tol herm st = genStep (fieldArith ip sq ab rp lt) tol st c w' := by
+      step (fieldArith ip sq ab rp lt) f tol herm st = genStep (fieldArith ip sq ab rp lt) tol st c w' ∧
+      (herm = true → (∀ i, i + 1 < st.V.length - 1 → c.getD i 0 = 0) ∧
+        (1 ≤ st.V.length - 1 → c.getD (st.V.length - 1 - 1) 0 =
+          hEntry (fieldArith ip sq ab rp lt : Arith K E) st.cols (st.V.length - 1) (st.V.length - 1 - 1))) := by
   cases herm with
   | false =>
     refine ⟨st.V.map (fun vi => ip vi (f vj)),
       addAmp (fieldArith ip sq ab rp lt) (f vj) ((st.V.map (fun vi => ip vi (f vj))).map Neg.neg) st.V,
-      by simp, ?_, ?_⟩
+      by simp, ?_, ?_, by intro h; cases h⟩
     · rw [addAmp_eq, lc_map_neg]; abel
     · simp only [step, Bool.false_eq_true, if_false, arnoldiStep, hl, genStep]
       rfl
   | true =>
     by_cases hj : st.V.length - 1 = 0
-    · refine ⟨[ip vj (f vj)], addAmp (fieldArith ip sq ab rp lt) (f vj) [-(ip vj (f vj))] [vj], ?_, ?_, ?_⟩
+    · refine ⟨[ip vj (f vj)], addAmp (fieldArith ip sq ab rp lt) (f vj) [-(ip vj (f vj))] [vj], ?_, ?_, ?_,
+        fun _ => ⟨fun i hi => by omega, fun h1 => by omega⟩⟩
       · have : st.V ≠ [] := by intro h; rw [h] at hl; simp at hl
         have := List.length_pos_iff.mpr this
         simp; omega
@@ -203,13 +207,18 @@ theorem step_eq_genStep (f : E → E) (tol : K) (herm : Bool) (st : KS K E) (vj 
           [hEntry (fieldArith ip sq ab rp lt : Arith K E) st.cols (st.V.length - 1) (st.V.length - 1 - 1), ip vj (f vj)],
         addAmp (fieldArith ip sq ab rp lt) (f vj)
           [-(hEntry (fieldArith ip sq ab rp lt : Arith K E) st.cols (st.V.length - 1) (st.V.length - 1 - 1)), -(ip vj (f vj))]
-          [st.V.getD (st.V.length - 1 - 1) vj, vj], ?_, ?_, ?_⟩
+          [st.V.getD (st.V.length - 1 - 1) vj, vj], ?_, ?_, ?_, fun _ => ⟨fun i hi => ?_, fun _ => ?_⟩⟩
       · simp; omega
       · rw [lc_replicate_zero, drop_two_of_getLast hl h2, addAmp_eq]
         simp only [lc_cons, lc_nil_left, neg_smul]
         abel
       · simp only [step, if_true, lanczosStep, hl, genStep, hj, if_false]
         rfl
+      · have hi' : i < st.V.length - 1 - 1 := by omega
+        rw [List.getD_eq_getElem?_getD, List.getElem?_append_left (by simpa using hi')]
+        simp [hi']
+      · rw [List.getD_eq_getElem?_getD, List.getElem?_append_right (by simp)]
+        simp
 
 end step
 
@@ -332,7 +341,7 @@ theorem expandLoop_relation (f : E → E) (tol : K) (herm : Bool) (hlt : ∀ x, 
   | zero => exact ⟨fun _ => hinv, fun h => by simp [expandLoop] at h⟩
   | succ fuel ih =>
     obtain ⟨vj, hl⟩ := getLast?_of_length_pos (xs := st.V) (by have := hinv.len; omega)
-    obtain ⟨c, w', hc, hw, hs⟩ := step_eq_genStep ip sq ab rp lt f tol herm st vj hl
+    obtain ⟨c, w', hc, hw, hs, _⟩ := step_eq_genStep ip sq ab rp lt f tol herm st vj hl
     rw [expandLoop, hs]
     cases hb : lt (sq (ip w' w')) tol with
     | true =>
@@ -375,7 +384,7 @@ theorem expandLoop_mem (f : E → E) (tol : K) (herm : Bool) (S : Submodule K E)
           rw [hx]; simp
         rw [this]; exact h
       | some vj =>
-        obtain ⟨c, w', _, hw, hs⟩ := step_eq_genStep ip sq ab rp lt f tol herm st vj hx
+        obtain ⟨c, w', _, hw, hs, _⟩ := step_eq_genStep ip sq ab rp lt f tol herm st vj hx
         have hvj : vj ∈ S := h _ (List.mem_of_getLast? hx)
         have hw' : w' ∈ S := by
           have : w' = f vj - lc c st.V := by rw [hw]; abel
@@ -537,5 +546,166 @@ theorem eigs_ok (f : E → E) (eig : List (List K) → List (K × List K)) (tolE
   rfl
 
 end eigs
+
+/-! ### structure of the Lanczos columns -/
+
+section tri
+variable [DecidableEq K] (ip : E → E → K) (sq ab rp : K → K) (lt : K → K → Bool)
+
+/-- every column `j` is zero above the super-diagonal and its super-diagonal entry `H[(j-1,j)]` equals the
+sub-diagonal entry `H[(j,j-1)]` of the previous column (a copy, NOT a conjugate) -/
+def Tri (cols : List (List K)) : Prop :=
+  ∀ j, j < cols.length →
+    (∀ i, i + 1 < j → hEntry (fieldArith ip sq ab rp lt : Arith K E) cols i j = 0) ∧
+    (1 ≤ j → hEntry (fieldArith ip sq ab rp lt : Arith K E) cols (j - 1) j
+      = hEntry (fieldArith ip sq ab rp lt : Arith K E) cols j (j - 1))
+
+theorem hEntry_append_left (cols : List (List K)) (c : List K) (i j : Nat) (hj : j < cols.length) :
+    hEntry (fieldArith ip sq ab rp lt : Arith K E) (cols ++ [c]) i j
+      = hEntry (fieldArith ip sq ab rp lt : Arith K E) cols i j := by
+  simp only [hEntry_eq, List.getD_eq_getElem?_getD, List.getElem?_append_left hj]
+
+theorem hEntry_append_last (cols : List (List K)) (c : List K) (i : Nat) :
+    hEntry (fieldArith ip sq ab rp lt : Arith K E) (cols ++ [c]) i cols.length = c.getD i 0 := by
+  simp [hEntry_eq, List.getD_eq_getElem?_getD]
+
+theorem tri_append (cols : List (List K)) (c : List K) (h : Tri (E := E) ip sq ab rp lt cols)
+    (h0 : ∀ i, i + 1 < cols.length → c.getD i 0 = 0)
+    (h1 : 1 ≤ cols.length → c.getD (cols.length - 1) 0
+      = hEntry (fieldArith ip sq ab rp lt : Arith K E) cols cols.length (cols.length - 1)) :
+    Tri (E := E) ip sq ab rp lt (cols ++ [c]) := by
+  intro j hj
+  rw [List.length_append, List.length_singleton] at hj
+  by_cases hjl : j < cols.length
+  · obtain ⟨a, b⟩ := h j hjl
+    refine ⟨fun i hi => ?_, fun hj1 => ?_⟩
+    · rw [hEntry_append_left _ _ _ _ _ _ _ _ _ hjl]; exact a i hi
+    · rw [hEntry_append_left _ _ _ _ _ _ _ _ _ hjl, hEntry_append_left _ _ _ _ _ _ _ _ _ (by omega)]
+      exact b hj1
+  · obtain rfl : j = cols.length := by omega
+    refine ⟨fun i hi => ?_, fun hj1 => ?_⟩
+    · rw [hEntry_append_last]; exact h0 i hi
+    · rw [hEntry_append_last, hEntry_append_left _ _ _ _ _ _ _ _ _ (by omega)]
+      exact h1 hj1
+
+omit [Field K] [AddCommGroup E] [Module K E] [DecidableEq K] in
+theorem genStep_shape (A : Arith K E) (tol : K) (st : KS K E) (c : List K) (w' : E) :
+    ∃ t : List K, (genStep A tol st c w').1.cols = st.cols ++ [c ++ t] ∧
+      ((genStep A tol st c w').2 = false → (genStep A tol st c w').1.V.length = st.V.length + 1) := by
+  unfold genStep
+  split
+  · exact ⟨[], by simp, by simp⟩
+  · exact ⟨[norm A w'], rfl, by simp⟩
+
+/-- the Lanczos loop keeps `Tri` (ANY `f`, `ip`, `sq`, `lt`, `tol`) -/
+theorem expandLoop_tri (f : E → E) (tol : K) (fuel : Nat) (st : KS K E)
+    (hlen : st.cols.length + 1 = st.V.length) (h : Tri (E := E) ip sq ab rp lt st.cols) :
+    Tri (E := E) ip sq ab rp lt (expandLoop (fieldArith ip sq ab rp lt) f tol true fuel st).1.cols := by
+  induction fuel generalizing st with
+  | zero => exact h
+  | succ fuel ih =>
+    obtain ⟨vj, hl⟩ := getLast?_of_length_pos (xs := st.V) (by omega)
+    obtain ⟨c, w', hc, _, hs, htri⟩ := step_eq_genStep ip sq ab rp lt f tol true st vj hl
+    obtain ⟨h0, h1⟩ := htri rfl
+    obtain ⟨t, ht, hV⟩ := genStep_shape (fieldArith ip sq ab rp lt) tol st c w'
+    have hJ : st.V.length - 1 = st.cols.length := by omega
+    rw [hJ] at h0 h1
+    have hnew : Tri (E := E) ip sq ab rp lt (genStep (fieldArith ip sq ab rp lt) tol st c w').1.cols := by
+      rw [ht]
+      refine tri_append ip sq ab rp lt _ _ h (fun i hi => ?_) (fun hj => ?_)
+      · rw [List.getD_eq_getElem?_getD, List.getElem?_append_left (by omega)]
+        rw [← List.getD_eq_getElem?_getD]; exact h0 i hi
+      · rw [List.getD_eq_getElem?_getD, List.getElem?_append_left (by omega)]
+        rw [← List.getD_eq_getElem?_getD]; exact h1 hj
+    rw [expandLoop, hs]
+    generalize genStep (fieldArith ip sq ab rp lt) tol st c w' = r at ht hV hnew ⊢
+    obtain ⟨st', b⟩ := r
+    cases b with
+    | true => exact hnew
+    | false =>
+      refine ih st' ?_ hnew
+      have := hV rfl
+      dsimp only at ht this ⊢
+      rw [ht, this]; simp; omega
+
+end tri
+
+/-! ### `expmv`: the state vector stays in an invariant submodule -/
+
+section expmvmem
+variable {σ : Type} [DecidableEq K] (ip : E → E → K) (sq ab rp : K → K) (lt : K → K → Bool)
+
+/-- the vector and the kept Krylov state after one pass of the `while` loop -/
+theorem expmvIter_state (f : E → E) (expm : List (List K) → List (List K))
+    (ctrl : σ → CtrlIn K → CtrlOut K × σ) (tol : K) (herm : Bool) (ncvMax : Nat) (sgn tOut : K) (st : ES K E σ) :
+    ((expmvIter (fieldArith ip sq ab rp lt) f expm ctrl tol herm ncvMax sgn tOut st).v = st.v ∨
+      ∃ amps : List K, (expmvIter (fieldArith ip sq ab rp lt) f expm ctrl tol herm ncvMax sgn tOut st).v
+        = linComb (fieldArith ip sq ab rp lt) st.v amps
+            (expand (fieldArith ip sq ab rp lt) f tol st.ncv herm (st.ks.getD { V := [st.v], cols := [] })).1.V) ∧
+    ((expmvIter (fieldArith ip sq ab rp lt) f expm ctrl tol herm ncvMax sgn tOut st).ks = none ∨
+      (expmvIter (fieldArith ip sq ab rp lt) f expm ctrl tol herm ncvMax sgn tOut st).ks
+        = some (expand (fieldArith ip sq ab rp lt) f tol st.ncv herm (st.ks.getD { V := [st.v], cols := [] })).1) := by
+  unfold expmvIter
+  dsimp only
+  generalize expand (fieldArith ip sq ab rp lt) f tol st.ncv herm (st.ks.getD { V := [st.v], cols := [] }) = r
+  generalize ctrl st.mem _ = d
+  refine ⟨?_, ?_⟩
+  · cases r.2 <;> cases d.1.accept
+    · exact Or.inl rfl
+    · exact Or.inr ⟨_, rfl⟩
+    · exact Or.inr ⟨_, rfl⟩
+    · exact Or.inr ⟨_, rfl⟩
+  · cases r.2 <;> cases d.1.accept
+    · exact Or.inr rfl
+    · exact Or.inl rfl
+    · exact Or.inl rfl
+    · exact Or.inl rfl
+
+/-- membership invariant of the `expmv` loop state -/
+def ESMem (S : Submodule K E) (st : ES K E σ) : Prop :=
+  st.v ∈ S ∧ ∀ ks, st.ks = some ks → ∀ v ∈ ks.V, v ∈ S
+
+theorem expmvIter_mem (f : E → E) (expm : List (List K) → List (List K))
+    (ctrl : σ → CtrlIn K → CtrlOut K × σ) (tol : K) (herm : Bool) (ncvMax : Nat) (sgn tOut : K) (st : ES K E σ)
+    (S : Submodule K E) (hf : ∀ x ∈ S, f x ∈ S) (h : ESMem S st) :
+    ESMem S (expmvIter (fieldArith ip sq ab rp lt) f expm ctrl tol herm ncvMax sgn tOut st) := by
+  obtain ⟨h1, h2⟩ := expmvIter_state ip sq ab rp lt f expm ctrl tol herm ncvMax sgn tOut st
+  have hks0 : ∀ v ∈ (st.ks.getD { V := [st.v], cols := [] }).V, v ∈ S := by
+    cases hk : st.ks with
+    | none => intro v hv; simp at hv; rw [hv]; exact h.1
+    | some ks => exact h.2 ks hk
+  have hV := expandLoop_mem ip sq ab rp lt f tol herm S hf
+    (st.ncv - ((st.ks.getD { V := [st.v], cols := [] }).V.length - 1)) _ hks0
+  refine ⟨?_, ?_⟩
+  · rcases h1 with h1 | ⟨amps, h1⟩
+    · rw [h1]; exact h.1
+    · rw [h1]; exact linComb_mem ip sq ab rp lt S _ _ _ h.1 hV
+  · rcases h2 with h2 | h2
+    · intro ks hks; rw [h2] at hks; simp at hks
+    · intro ks hks
+      rw [h2] at hks
+      simp only [Option.some.injEq] at hks
+      rw [← hks]; exact hV
+
+theorem expmvLoop_mem (f : E → E) (expm : List (List K) → List (List K))
+    (ctrl : σ → CtrlIn K → CtrlOut K × σ) (tol : K) (herm : Bool) (ncvMax : Nat) (sgn tOut : K)
+    (S : Submodule K E) (hf : ∀ x ∈ S, f x ∈ S) (fuel : Nat) (st st' : ES K E σ) (h : ESMem S st)
+    (hr : expmvLoop (fieldArith ip sq ab rp lt) f expm ctrl tol herm ncvMax sgn tOut fuel st = some st') :
+    ESMem S st' := by
+  induction fuel generalizing st with
+  | zero =>
+    rw [expmvLoop] at hr
+    split at hr
+    · exact absurd hr (by simp)
+    · obtain rfl : st = st' := by simpa using hr
+      exact h
+  | succ fuel ih =>
+    rw [expmvLoop] at hr
+    split at hr
+    · exact ih _ (expmvIter_mem ip sq ab rp lt f expm ctrl tol herm ncvMax sgn tOut st S hf h) hr
+    · obtain rfl : st = st' := by simpa using hr
+      exact h
+
+end expmvmem
 
 end YModel.Krylov
